@@ -1,7 +1,7 @@
 """
 C15 -- saved programs load back identically; the protection cipher is a bijection.
 
-Decides (level: proof): unprotect o protect = id on every byte and stream
+Decides (the cipher part as a proof): unprotect o protect = id on every byte and stream
 position, by algebra on the operation words extracted from the AST; plus
 writer/reader table agreement (magic bytes, save/load file-type dispatch) and
 the converter going through LOAD/SAVE of a Session.
@@ -14,7 +14,7 @@ from ..flow import own_nodes
 from .. import mutate as mu
 
 PROP = 'C15'
-LEVEL = 'proof'
+LEVEL = 'other'   # the cipher sub-claim is proved; the property as a whole has a known finding (tokenised LOAD keeps the EOF marker)
 EXPLANATION = """
 Static proof obligations over pcbasic/basic/converter/protect.py: the sequence
 of augmented assignments on the byte variable in protect() and unprotect() is
